@@ -1096,6 +1096,15 @@ class Object( object ):
             # sequence of unsigned bytes.
             data.service       |= 0x80
             result		= b''
+            if 'path' in data:
+                # The request must address this Object.  A Message Router that finds no Object at
+                # the request's path processes the request itself; don't answer (or alter our own
+                # Attributes) on behalf of a Class/Instance that doesn't exist.
+                data.status	= 0x05		# Request Path destination unknown
+                ids		= resolve( data.path )
+                assert ids[0] == self.class_id and ids[1] == self.instance_id, \
+                    "Path %r processed by wrong Object %r" % ( data.path['segment'], self )
+                data.status	= 0x08
             if data.service == self.GA_ALL_RPY:
                 # Get Attributes All.  Collect up the bytes representing the attributes.  Replace
                 # the place-holder .get_attribute_all=True with a real dotdict.  Returns only the
